@@ -10,7 +10,7 @@ open Driver.C12 (pTy pVal pGoTy showVal)
 ops (token syntax of Driver/C12.lean):
   rt p T V GT      → merr | uerr | crash | unmodelled | ok V'      model of gocql.Marshal followed by gocql.Unmarshal
                                                                     of the produced bytes into a fresh Go value of type GT
-  rtx p T V GT     → merr | ok V'                                   the SPECIFICATION of the cross-kind round trip of an integer column
+  rtx p T V GT     → merr | ok V' | refuse-or-same                                  the SPECIFICATION of the cross-kind round trip of an integer column
   hseq k ; C ; C … → per call same:<bytes> | merr, then late:ok     a sequence of same-type round trips in one process (C = N|A p T V GT)
   rtsame p T V GT  → merr | same                                    the PROPERTY (C02_scalar_roundtrip): whenever Marshal
                                                                     succeeds, decoding into the same Go type gives the value back
@@ -52,6 +52,7 @@ def crossAnswer (_p : Nat) (t : CqlTy) (g : GoVal) (ty : GoTy) : String :=
   match crossSpec t g ty with
   | .merr => "merr"
   | .ok v => "ok " ++ showVal v
+  | .refuseOr _ => "refuse-or-same"
   | .unrepresentable => "unrepresentable"
   | .excluded kf => "excluded:" ++ kf
   | .undocumented => "undocumented"
